@@ -460,19 +460,23 @@ def run(chk, tier):
 
     # ---- 5. replay: every (program variant, configuration) --------------------------------------------------
     jobs = []                # (variant index, cfg, route)
+    # small programs first: the expensive configurations (a unit split at every statement becomes several hundred files)
+    # are replayed on the first few only
+    variants.sort(key=lambda v: (v[1] == "crafted", len(render.render(v[0], v[2]))))
+    n_s1, n_s5, n_ship = (2, 5, 3) if quick else (4, 15, 8)
     for vi, (p, style, names, real) in enumerate(variants):
         cfgs = chosen
-        if style == "crafted" and quick:
-            cfgs = [c for c in chosen if c["smax"] in (0, 50)][:6]
-            cfgs += [c for c in chosen if c["idlen"] == 30 and c not in cfgs][:2]
+        if style == "crafted":
+            cfgs = [c for c in chosen if c["smax"] in (0, 50)]
+            if quick:
+                c30 = [c for c in chosen if c["idlen"] == 30 and c not in cfgs[:6]][:2]
+                cfgs = cfgs[:6] + c30
         for c in cfgs:
-            # a unit split at every statement (-Csmax=1) becomes several hundred files: the quick tier does that for two
-            # programs and -Csmax=5 for five (the thorough tier for all)
-            if quick and ((c["smax"] == 1 and vi >= 2) or (c["smax"] == 5 and vi >= 5)):
+            if (c["smax"] == 1 and vi >= n_s1) or (c["smax"] == 5 and vi >= n_s5):
                 continue
-            # against the shipped archives a limit other than the default fails at start-up (recorded finding): the quick
-            # tier keeps that visible with three programs and spends the rest on libraries regenerated with the same limit
-            if c["idlen"] == 30 or not quick or vi < 3 or style == "crafted":
+            # against the shipped archives a limit other than the default fails at start-up (recorded finding): that is kept
+            # visible with a few programs; the rest is spent on libraries regenerated with the same limit
+            if c["idlen"] == 30 or vi < n_ship or style == "crafted":
                 jobs.append((vi, c, "shipped"))
             if c["idlen"] != 30:
                 jobs.append((vi, c, "samelimit"))
